@@ -22,7 +22,7 @@ func newRand(seed uint64) *lib.Rand { return lib.NewRand(seed) }
 
 const header = "From GL Require Import Ctx.CancelModel Ctx.CancelCases.\nFrom Coq Require Import List ZArith.\nImport ListNotations."
 
-const childTimeout = 120 * time.Second
+var childTimeout = 45 * time.Second
 
 // runRaw executes this binary with a sub-command in a child process; a crash or a hang is reported,
 // not propagated.
@@ -129,7 +129,17 @@ func addJob(w *lib.Writer, j job, res jobResult, fail string) {
 	}
 	if res.CompileErr != "" {
 		id := w.Add(lib.Case{Coq: "CGoFail", Input: caseInput{Kind: "job", Job: jin}, Observed: res.CompileErr, Class: j.Class + "/gofail"})
-		w.GoFail(id, "harness bug: generated program does not compile: "+res.CompileErr)
+		w.GoFail(id, "program could not be run: "+res.CompileErr)
+		return
+	}
+	if j.RemoveCtx {
+		ok := res.Terminated && res.TracePolls == 0 && res.NoInherit == 0
+		w.Add(lib.Case{
+			Coq:      fmt.Sprintf("CNoFire %s %s", lib.CoqBool(res.SameAsRef), lib.CoqBool(ok)),
+			Input:    caseInput{Kind: "removectx", Job: jin},
+			Observed: map[string]any{"same_as_ref": res.SameAsRef, "polls": res.TracePolls, "terminated": res.Terminated},
+			Class:    j.Class, Nontrivial: res.RefEmits > 0,
+		})
 		return
 	}
 	if res.Terminated && !j.NoRef {
@@ -252,6 +262,9 @@ func main() {
 		"for every k up to the tier's cap (constructs) or 20 sampled k (random programs); observed per (program,k): abstract frame stack at the firing poll, polls and emit calls after it, " +
 		"final error, emit trace vs the context-free run; blocked channel operations are cancelled from another goroutine once the script goroutine is parked; " +
 		"non-trivial = the firing poll finds a protected call, coroutine boundary or Go library frame on the stack, or call depth >= 3; distinct by Gallina term"
+	if a.Tier == "thorough" {
+		childTimeout = 240 * time.Second
+	}
 	if a.Replay != "" {
 		replay(w, a.Replay)
 	} else {
